@@ -309,7 +309,8 @@ theorem index_eq (n : ℕ) (p : Rex) (hn : n ≠ 0) (h0 : 0 ≤ p.val) (h1 : p.v
     Quantile.index n p = .ok (rank n p.val) := by
   simp [Quantile.index, hn, not_lt.mpr h0, not_lt.mpr h1, rank]
 
-/-- `Proportion.finish` on Wilson numbers that lie in `[0,1]` -/
+/-- `Proportion.ciWilson` at exact arithmetic: the Wilson numbers lie in `[0,1]`, so the clamp of
+    `Proportion.finishWilson` is inert and the result is `Proportion.finish` on them -/
 theorem ciWilson_eq (crit : Crit Rex) (conf : Confidence Rex) (n k : ℕ)
     (hl : 0 < conf.level.val ∧ conf.level.val < 1) (hn : 0 < n) (hk2 : 2 ≤ k) (hf2 : 2 ≤ n - k) :
     Proportion.ciWilson crit conf n k =
@@ -328,6 +329,10 @@ theorem ciWilson_eq (crit : Crit Rex) (conf : Confidence Rex) (n k : ℕ)
   set zz := crit (.z conf.quantile) with hzz
   have hlo := lower_nonneg n k zz.val hn hkn
   have hhi := upper_le_one n k zz.val hn hkn
+  -- at exact arithmetic both Wilson bounds are proportions: the clamp into `[0,1]` is inert
+  rw [Proportion.finishWilson_eq_finish conf _ _
+    (by rw [wilsonCentre_val, wilsonSpan_val]; exact hlo.1)
+    (by rw [wilsonCentre_val, wilsonSpan_val]; exact hhi.2)]
   cases conf with
   | twoSided l =>
     simp only [Proportion.finish, Interval.new, RR.gt_iff, RR.sub_val, RR.add_val,
